@@ -15,14 +15,14 @@ LETTERS = 'abcdefghijklmnopqrstuvwxyz'
 # --------------------------------------------------------------------------
 # abstract model <-> files.  Abstract model: {n, ln:[levels], ip:[[key ids], level], cp: likewise}
 # --------------------------------------------------------------------------
-def write_model(d, m, alphabet=None, encoding='utf-8', order=None):
+def write_model(d, m, alphabet=None, encoding='utf-8', order=None, final_newline=True):
     na = max([max(k) for k, _ in m['ip']] + [max(k) for k, _ in m['cp']] + [1]) if (m['ip'] or m['cp']) else 1
     alphabet = alphabet or list(LETTERS[:na])
     txt = lambda key: ''.join(alphabet[c - 1] for c in key)
     omen = dict(ngram=m['n'], alphabet=alphabet, ln=m['ln'],
                 ip={txt(k): lvl for k, lvl in m['ip']}, cp={txt(k): lvl for k, lvl in m['cp']},
                 ep={txt(k): 0 for k, lvl in m['ip']})
-    rulesets.write_omen(d, omen, encoding, order=order)
+    rulesets.write_omen(d, omen, encoding, order=order, final_newline=final_newline)
     return alphabet
 
 
